@@ -51,12 +51,14 @@ package signappx
 //@   ensures @a_present_member_is_digested_and_compared_with_its_signed_digest ret0 == nil ==> (copied && eq) || (sig.HashValues[tag] == nil && files[name] == nil)
 //@
 //@ func verifyMeta
-//@   property C02
+//@   property C02 C11
 //@   requires r != nil
 //@   ghost cd bool = false
 //@   ghost pc bool = false
 //@   ghost trunc bool = false
 //@   before call (*zipslicer.Directory).Truncate(_, n, body, dir): assert @archive_digested_without_the_signature_member n == sigIdx && dir == iface(axcd) && (!skipDigests ==> body == iface(axpc))
+//@   before call (*zipslicer.Directory).Truncate(dd, n, _, _): assert @signature_member_is_a_position_in_the_directory_that_was_read dd == dir && 0 <= n && n < len(dir.File)
+//@   loop 0 sig "for i, f := range dir.File" invariant -1 <= sigIdx && sigIdx <= rangeindex && rangeindex < len(dir.File) && dir != nil
 //@   on call (*zipslicer.Directory).Truncate(_, _, _, _) ret (e): trunc = (e == nil)
 //@   on call crypto/hmac.Equal(a, b) ret (ok): pc = pc || (ok && sameslice(b, sig.HashValues["AXPC"])); cd = cd || (ok && sameslice(b, sig.HashValues["AXCD"]))
 //@   ensures @content_and_directory_digests_compared ret0 == nil ==> trunc && cd && (!skipDigests ==> pc)
